@@ -40,5 +40,6 @@ Definition check (c : case) : bool :=
             | RErr (NFProof _) | RErr (NFRes _) => false
             | _ => true
             end
+            && (negb (r_lock rs) || match rt_run true m with RErr (LockedBucket _) => false | _ => true end)
   | _ => true
   end.
